@@ -175,6 +175,10 @@ func main() {
 		doHunt(*seed, *hunt)
 		return
 	}
+	if *climb > 0 {
+		doClimb(*seed, *climb)
+		return
+	}
 	if *enumM > 0 {
 		doEnum(*enumM, *enumN1, *enumN2, *enumShard, *enumShards)
 		return
@@ -399,13 +403,14 @@ func main() {
 			}
 		}
 		// irregular subscriptions (topic twice, topic the map lacks)
+	irrS := bg.IrregularSmall()
 	nis := *n / 10
-	for _, i := range r.Perm(len(irr)) {
+	for _, i := range r.Perm(len(irrS)) {
 		if nis == 0 {
 			break
 		}
 		nis--
-		addSticky(irr[i], "irregular", "", 0, nil)
+		addSticky(irrS[i], "irregular", "", 0, nil)
 	}
 	// a partition moved a->b in one rebalance is dropped from its topic, the next rebalance moves partitions of that topic b->a:
 	// movement records surviving from the previous call would redirect to the dropped partition
@@ -549,6 +554,7 @@ func doHunt(seed int64, n int) {
 	bg.HangTimeout = 2 * time.Second
 	rev, hangs := 0, 0
 	nonInitN, nonInitPicks := 0, 0
+	bestD, bestDP, perf := -1<<30, -1<<30, 0
 	for i := 0; i < n; i++ {
 		in := bg.Adversarial(r, *searchM, *searchT, *searchP)
 		if *huntK > 0 {
@@ -594,6 +600,18 @@ func doHunt(seed int64, n int) {
 				nonInit = false
 			}
 		}
+		if len(run.Score) == 5 && run.Score[2] == 0 && run.Score[3] == 1 {
+			d := run.Score[0] - run.Score[1]
+			perf++
+			if d > bestD {
+				bestD = d
+				b, _ := json.Marshal(run.In)
+				fmt.Println("BEST", d, "fixed", run.Score[4], "picks", run.NPicks, string(b))
+			}
+			if run.NPicks > 0 && d > bestDP {
+				bestDP = d
+			}
+		}
 		if nonInit {
 			nonInitN++
 			if run.NPicks > 0 {
@@ -605,7 +623,109 @@ func doHunt(seed int64, n int) {
 			}
 		}
 	}
-	fmt.Println("hunt done", n, "reverts", rev, "hangs", hangs, "non-initializing", nonInitN, "of which with redirect", nonInitPicks)
+	fmt.Println("hunt done", n, "reverts", rev, "hangs", hangs, "non-initializing", nonInitN, "of which with redirect", nonInitPicks, "not-initializing-and-performed", perf, "best score diff", bestD, "best with redirect", bestDP)
+}
+
+var climb = flag.Int("climb", 0, "hill-climbing search for the revert branch: this many restarts (needs a tree with sticky.score / sticky.revert reports)")
+
+// fitness of an input for the revert hunt: (ok, current score - pre-balance score, redirections); ok = nobody starts empty
+// (balance() not initializing) and something was reassigned
+func fitness(in bg.Input) (bool, int, int, bool, bg.StickyRun) {
+	run := bg.RunSticky(in)
+	if run.Hang || len(run.Score) != 5 {
+		return false, 0, 0, run.Hang, run
+	}
+	return run.Score[2] == 0 && run.Score[3] == 1, run.Score[0] - run.Score[1], run.NPicks, false, run
+}
+
+func mutate(r *rand.Rand, in bg.Input) bg.Input {
+	out := bg.Input{Topics: in.Topics}
+	for _, m := range in.Members {
+		mm := bg.Member{ID: m.ID, Topics: append([]string(nil), m.Topics...)}
+		if m.UD != nil {
+			u := *m.UD
+			u.Parts = append([]bg.TP(nil), m.UD.Parts...)
+			mm.UD = &u
+		}
+		out.Members = append(out.Members, mm)
+	}
+	n := len(out.Members)
+	switch r.Intn(4) {
+	case 0, 1: // move one claim to another member
+		a, b := r.Intn(n), r.Intn(n)
+		if ua := out.Members[a].UD; ua != nil && len(ua.Parts) > 1 && a != b && out.Members[b].UD != nil {
+			i := r.Intn(len(ua.Parts))
+			out.Members[b].UD.Parts = append(out.Members[b].UD.Parts, ua.Parts[i])
+			ua.Parts = append(ua.Parts[:i], ua.Parts[i+1:]...)
+		}
+	case 2: // drop a subscription
+		a := r.Intn(n)
+		if t := out.Members[a].Topics; len(t) > 1 {
+			i := r.Intn(len(t))
+			out.Members[a].Topics = append(t[:i], t[i+1:]...)
+		}
+	default: // add a subscription
+		a := r.Intn(n)
+		t := in.Topics[r.Intn(len(in.Topics))].Name
+		if !in.Subscribes(out.Members[a].ID, t) {
+			out.Members[a].Topics = append(out.Members[a].Topics, t)
+		}
+	}
+	bg.EncodeUD(&out)
+	return out
+}
+
+func doClimb(seed int64, restarts int) {
+	r := rand.New(rand.NewSource(seed))
+	bg.HangTimeout = 2 * time.Second
+	best := -1 << 30
+	hangs := 0
+	for rs := 0; rs < restarts && hangs < 5; rs++ {
+		// find a start: not initializing, performed, with a redirection
+		var cur bg.Input
+		curD := 0
+		found := false
+		for tries := 0; tries < 60000 && !found; tries++ {
+			in, ok := bg.NearBalanced(r, *searchM, *searchT, *searchP, 1+r.Intn(4))
+			if !ok {
+				continue
+			}
+			good, d, picks, hang, run := fitness(in)
+			if hang {
+				hangs++
+				continue
+			}
+			if good && picks > 0 {
+				cur, curD, found = run.In, d, true
+			}
+		}
+		if !found {
+			continue
+		}
+		for step := 0; step < 3000; step++ {
+			cand := mutate(r, cur)
+			good, d, picks, hang, run := fitness(cand)
+			if hang {
+				hangs++
+				continue
+			}
+			if run.Other["sticky.revert"] > 0 {
+				k, what := bg.Validity(&run.In, run.Plan)
+				b, _ := json.Marshal(run)
+				fmt.Println("REVERT", k, what, "fixed", run.Score[4], string(b))
+				return
+			}
+			if good && picks > 0 && d >= curD {
+				cur, curD = run.In, d
+			}
+		}
+		if curD > best {
+			best = curD
+			b, _ := json.Marshal(cur)
+			fmt.Println("BEST", best, string(b))
+		}
+	}
+	fmt.Println("climb done restarts", restarts, "best score diff", best, "hangs", hangs)
 }
 
 var enumM = flag.Int("enum", 0, "enumeration mode: number of members (2 topics s,t; all subscriptions x all forged owners)")
